@@ -365,6 +365,9 @@ size_t varintAdaptiveEncodeWith(uint8_t *dst, const uint64_t *values,
         varintPFORMeta pforMeta = {0};
         encodedSize = varintPFOREncode(dst + offset, values, (uint32_t)count,
                                        VARINT_PFOR_THRESHOLD_95, &pforMeta);
+        if (encodedSize == 0 && count > 0) {
+            return 0; /* Encoder failed (out of memory) */
+        }
 
         if (meta) {
             meta->encodingMeta.pforMeta = pforMeta;
@@ -374,6 +377,9 @@ size_t varintAdaptiveEncodeWith(uint8_t *dst, const uint64_t *values,
 
     case VARINT_ADAPTIVE_DICT: {
         encodedSize = varintDictEncode(dst + offset, values, count);
+        if (encodedSize == 0 && count > 0) {
+            return 0; /* Encoder failed (out of memory, too many values) */
+        }
         break;
     }
 
@@ -385,8 +391,11 @@ size_t varintAdaptiveEncodeWith(uint8_t *dst, const uint64_t *values,
         }
 
         for (size_t i = 0; i < count; i++) {
-            if (values[i] < VARINT_BITMAP_MAX_VALUE) {
-                varintBitmapAdd(vb, (uint16_t)values[i]);
+            if (values[i] < VARINT_BITMAP_MAX_VALUE &&
+                !varintBitmapAdd(vb, (uint16_t)values[i]) &&
+                !varintBitmapContains(vb, (uint16_t)values[i])) {
+                varintBitmapFree(vb);
+                return 0; /* Out of memory while growing the set */
             }
         }
 
